@@ -291,6 +291,12 @@ def make_fractions(spec, n):
 
 
 # --------------------------------------------------------------------------- strain
+def spin_rate(L):
+    """Magnitude of the rigid-rotation rate (rad per unit time) of a velocity gradient."""
+    W = 0.5 * (np.asarray(L) - np.asarray(L).T)
+    return float(np.sqrt(W[0, 1] ** 2 + W[0, 2] ** 2 + W[1, 2] ** 2))
+
+
 def max_principal_rate(L):
     D = 0.5 * (L + L.T)
     return float(np.abs(np.linalg.eigvalsh(D)).max())
